@@ -348,6 +348,7 @@ def _gen_copyast(pid, sp):
     from runner import ensure_engine, workdir, GOENV
     d = os.path.join(workdir(pid), 'gen')
     os.makedirs(d, exist_ok=True)
+    sp['overlay'] = sp['overlay'][:-1] + [d]
     subprocess.run([ensure_engine(), '-gen-copyast', os.path.join(d, 'h_copyast_gen.go')], env=GOENV, check=True)
 
 
